@@ -418,6 +418,10 @@ class Library:
             for c in it.str_labels.values():      # a uuid-suffixed label is none of the program's string constants
                 it.ctx.assume(t != c)
             return Sym(t)
+        if any(isinstance(p, (DigitStr, DigitString)) for p in parts):
+            ds = DigitString.of(parts)
+            if ds is not None and all(not isinstance(p, str) or p.isdigit() or p == '' for p in parts):
+                return ds
         if any(isinstance(p, DigitStr) for p in parts) and all(isinstance(p, (str, DigitStr)) for p in parts):
             return NumberedLabel(tuple(parts)).to_sym(it)
         if has_label and not formatted:
@@ -425,6 +429,24 @@ class Library:
         return Opaque('msg')
 
     def str_to_int(self, x, base):
+        it = self.it
+        if isinstance(x, DigitStr):
+            x = DigitString([x.sym])
+        if isinstance(x, DigitString) and isinstance(base, int) and 2 <= base <= 10:
+            if not x.digits:
+                it.raise_('ValueError', 'invalid literal for int()')
+            acc = z3.IntVal(0)
+            for d in x.digits:
+                dt = z3.IntVal(int(d)) if isinstance(d, str) else it.int_term(d)
+                if not isinstance(d, str):
+                    if it.ctx.feasible(z3.Or(dt < 0, dt > 9)):
+                        raise Unsupported('str() of a symbolic int that may have several digits')
+                    if it.ctx.choose(z3.Or(dt < 0, dt >= base)):
+                        it.raise_('ValueError', 'invalid literal for int() with base %d' % base)
+                elif int(d) >= base:
+                    it.raise_('ValueError', 'invalid literal for int()')
+                acc = acc * base + dt
+            return Sym(acc)
         raise Unsupported('int(str, base) on symbolic value')
 
     def str_index(self, s, k):
@@ -463,6 +485,11 @@ class Library:
                 return Sym(x / (2 ** b))
             if it.ctx.choose(y < 0):
                 it.raise_('ValueError', 'negative shift count')
+            xs = z3.simplify(x)
+            if z3.is_app(xs) and xs.decl().kind() == z3.Z3_OP_MUL and xs.num_args() == 2:
+                for p_, t_ in ((xs.arg(0), xs.arg(1)), (xs.arg(1), xs.arg(0))):
+                    if _is_pow2_term(p_) and z3.simplify(p_.arg(0) - y).eq(z3.IntVal(0)):
+                        return Sym(t_)           # (2^y * t) >> y = t   (background lemma, 2^y >= 1)
             return Sym(x / Pow2(y))
         if T is ast.LShift:
             if conc_b:
@@ -471,6 +498,8 @@ class Library:
                 return Sym(x * (2 ** b))
             if it.ctx.choose(y < 0):
                 it.raise_('ValueError', 'negative shift count')
+            if conc_a and a == 1:
+                return Sym(Pow2(y))
             return Sym(x * Pow2(y))
         if T is ast.BitAnd:
             for (cv, other) in ((b, x) if conc_b else (None, None), (a, y) if conc_a else (None, None)):
@@ -481,9 +510,13 @@ class Library:
                 if cv > 0 and (cv & (cv - 1)) == 0:           # single bit 2^k
                     return Sym(cv * ((other / cv) % 2))
             # x & pow2(s)  ->  pow2(s) * ((x div pow2(s)) mod 2)
-            for (p, other) in ((y, x), (x, y)):
+            for (p, other) in ((z3.simplify(y), x), (z3.simplify(x), y)):
                 if _is_pow2_term(p):
                     return Sym(p * ((other / p) % 2))
+            w = getattr(it, 'bv_width', None)
+            if w:
+                it.ctx.check('bitand-operands-fit-width', z3.And(x >= 0, x < 2 ** w, y >= 0, y < 2 ** w))
+                return Sym(z3.BV2Int(z3.Int2BV(x, w) & z3.Int2BV(y, w)))
             raise Unsupported('general symbolic &')
         if T is ast.BitOr:
             # x | (b * 2^t) with 0 <= x < 2^t, b in {0,1}: bits are disjoint, so | is + (background lemma);
@@ -499,6 +532,10 @@ class Library:
                 return Sym(z3.BV2Int(z3.Int2BV(x, w) | z3.Int2BV(y, w)))
             raise Unsupported('general symbolic |')
         if T is ast.BitXor:
+            w = getattr(it, 'bv_width', None)
+            if w:
+                it.ctx.check('bitxor-operands-fit-width', z3.And(x >= 0, x < 2 ** w, y >= 0, y < 2 ** w))
+                return Sym(z3.BV2Int(z3.Int2BV(x, w) ^ z3.Int2BV(y, w)))
             raise Unsupported('general symbolic ^')
         if T is ast.Pow:
             if conc_a and a == 2:
@@ -669,6 +706,10 @@ class Library:
                     parts = list(it.iterate(xs))
                     if all(isinstance(p, str) for p in parts):
                         return v.join(parts)
+                    if v == '' and all(isinstance(p, (str, DigitStr, DigitString)) for p in parts):
+                        ds = DigitString.of(parts)
+                        if ds is not None:
+                            return ds
                     if it.string_mode:
                         out = []
                         for i, p in enumerate(parts):
@@ -943,6 +984,30 @@ class DigitStr:
 
     def __init__(self, sym):
         self.sym = sym
+
+
+class DigitString:
+    """a python str made only of decimal digit characters, some of them symbolic (str(int(b)) for a symbolic b):
+    list of python digit chars and int terms in [0, 9]"""
+
+    def __init__(self, digits):
+        self.digits = list(digits)
+
+    @staticmethod
+    def of(parts):
+        out = []
+        for p in parts:
+            if isinstance(p, str):
+                if not all(c in '0123456789' for c in p):
+                    return None
+                out.extend(p)
+            elif isinstance(p, DigitStr):
+                out.append(p.sym)
+            elif isinstance(p, DigitString):
+                out.extend(p.digits)
+            else:
+                return None
+        return DigitString(out)
 
 
 class NumberedLabel:
